@@ -74,6 +74,7 @@ static void producer(AsyncPipe *pipe, int p, std::vector<long long> sizes, bool 
         off += len;
         S().arrive("drv.append", "P", 0);             // harness-level scheduling point before the call (outside the pipe's mutexes)
         S().pass("drv.append", "P");
+        emit(J("ucall") + kv("p", p) + kv("len", len) + "}");        // what the user appends with this call: the unit of contiguity
         if (!lockless) pipe->append(data.get(), (size_t)len);
         else {      // the "lockless" API: two pieces under one appendLock()
             long long h = len / 2;
@@ -82,6 +83,7 @@ static void producer(AsyncPipe *pipe, int p, std::vector<long long> sizes, bool 
             pipe->appendLockless(data.get() + h, (size_t)(len - h));
             pipe->appendUnlock();
         }
+        emit(J("uret") + kv("p", p) + "}");
     }
 }
 
